@@ -129,6 +129,14 @@ func bt1PutType(p *core.Prog, rep *core.Report) {
 				if callee := c.StaticCallee(); callee != nil && core.RecvNamed(callee) == R.Batch {
 					res := callee.Signature.Results()
 					if res.Len() == 1 && strings.HasSuffix(res.At(0).Type().String(), "datafile.LogRecord") {
+						// a constructor helper (`newPendingRecord(typ, key, value)`): every record it returns is fresh from the
+						// pool, and its Type is left alone or stored from a constant / from a parameter bound to a constant here
+						if fresh, typed := recordCtorKind(p, callee, c, normal); fresh {
+							if typed {
+								return []core.StepOut{{A: "F"}}, true
+							}
+							return []core.StepOut{{A: "L"}}, true
+						}
 						lookups++
 						return []core.StepOut{{A: "L"}}, true
 					}
@@ -778,4 +786,49 @@ func callUpdatesIndex(p *core.Prog, c *ssa.Function, d int) bool {
 		}
 	}
 	return false
+}
+
+// recordCtorKind: callee returns only records fresh from the pool (fresh); typedNormal: it leaves Type alone (pool
+// invariant: Normal) or stores the Normal constant - directly or through a parameter that this call binds to it.
+func recordCtorKind(p *core.Prog, callee *ssa.Function, call *ssa.CallCommon, normal constant.Value) (fresh, typedNormal bool) {
+	n := 0
+	for _, r := range core.Returns(callee) {
+		v := core.ReturnOperand(r, 0)
+		n++
+		if !core.AllOrigins(v, func(o ssa.Value) bool {
+			c, ok := o.(*ssa.Call)
+			return ok && core.StaticCalleeIs(c.Common(), poolGet)
+		}) {
+			return false, false
+		}
+	}
+	if n == 0 {
+		return false, false
+	}
+	typedNormal = true
+	for _, b := range callee.Blocks {
+		for _, in := range b.Instrs {
+			f, _, val := core.StoreField(in)
+			if f != p.R.LRType {
+				continue
+			}
+			if c, ok := val.(*ssa.Const); ok && c.Value != nil && constant.Compare(c.Value, token.EQL, normal) {
+				continue
+			}
+			okParam := false
+			if par, ok := val.(*ssa.Parameter); ok {
+				for i, pp := range callee.Params {
+					if pp == par && i < len(call.Args) {
+						if c, ok := call.Args[i].(*ssa.Const); ok && c.Value != nil && constant.Compare(c.Value, token.EQL, normal) {
+							okParam = true
+						}
+					}
+				}
+			}
+			if !okParam {
+				typedNormal = false
+			}
+		}
+	}
+	return true, typedNormal
 }
